@@ -412,6 +412,17 @@ func checkC11(c *Ctx) {
 								crash[ri.Pkg+" "+em+" panic"] = "emitted code calls panic"
 								crashPos[ri.Pkg+" "+em+" panic"] = p
 							}
+							// an allocation sized by a number the peer sends (Content-Length) panics or exhausts memory
+							if id, ok := x.Fun.(*ast.Ident); ok && id.Name == "make" && len(x.Args) >= 2 {
+								for _, sz := range x.Args[1:] {
+									if strings.Contains(types.ExprString(sz), "ContentLength") {
+										_, p := genFn(x.Pos())
+										k := pkgShort(ri.Pkg) + " *" + ri.Suffix + ": allocation sized by the peer's Content-Length"
+										crash[k] = "emitted code allocates " + holeFree(types.ExprString(x)) + ": the size is taken from a header the peer controls; an absurd value makes make panic (len out of range) or exhausts memory before a single byte was read, instead of the read failing with an error"
+										crashPos[k] = p
+									}
+								}
+							}
 							match := ""
 							for _, dcl := range decodeCallees {
 								if fun == dcl || strings.HasPrefix(fun, dcl) || strings.HasSuffix(fun, "."+dcl) {
@@ -452,7 +463,7 @@ func checkC11(c *Ctx) {
 								if id, ok := x.Lhs[len(x.Lhs)-1].(*ast.Ident); ok && id.Name == "_" {
 									if call, ok := x.Rhs[0].(*ast.CallExpr); ok {
 										fun := holeFree(types.ExprString(call.Fun))
-										if fun != "json.Marshal" && !strings.HasSuffix(fun, ".Write") {
+										if !(fun == "json.Marshal" && len(call.Args) == 1 && totalJSONArg(call.Args[0], fdecl)) && !strings.HasSuffix(fun, ".Write") {
 											em, p := genFn(x.Pos())
 											k := pkgShort(ri.Pkg) + " " + em + " discards the error of " + fun
 											blank[k] = p
@@ -792,6 +803,76 @@ func lenGuardedByName(parents map[ast.Node]ast.Node, at ast.Node, base string) b
 		case *ast.FuncLit, *ast.FuncDecl:
 			return false
 		}
+	}
+	return false
+}
+
+// totalJSONArg: json.Marshal cannot fail on the argument — a string/number produced by a formatter or accessor
+// (t.Format(…), t.Unix(), strconv.Format*, EncodeToString, x.Field), a string literal, or a local declared as a
+// slice/map of such values. A time.Time, an arbitrary struct or an interface value can fail (Time.MarshalJSON
+// rejects years outside 0…9999) and must not have its error discarded.
+func totalJSONArg(arg ast.Expr, fd *ast.FuncDecl) bool {
+	switch x := ast.Unparen(arg).(type) {
+	case *ast.BasicLit:
+		return true
+	case *ast.CallExpr:
+		if sel, ok := x.Fun.(*ast.SelectorExpr); ok {
+			switch sel.Sel.Name {
+			case "Format", "Unix", "UnixMilli", "UnixMicro", "EncodeToString", "FormatInt", "FormatUint", "FormatFloat", "FormatBool", "Itoa", "String", "Quote":
+				return true
+			}
+		}
+		if id, ok := x.Fun.(*ast.Ident); ok && (id.Name == "string" || id.Name == "int64" || id.Name == "float64") {
+			return true
+		}
+		return false
+	case *ast.SelectorExpr:
+		// x.Field: a scalar field of the message (the emitters apply this to 64-bit integer fields)
+		if id, ok := x.X.(*ast.Ident); ok && id.Name == "x" {
+			return true
+		}
+		return false
+	case *ast.Ident:
+		// a local declared as []T / map[K]V / string in this function
+		okDecl := false
+		ast.Inspect(fd.Body, func(n ast.Node) bool {
+			switch d := n.(type) {
+			case *ast.DeclStmt:
+				if gd, ok := d.Decl.(*ast.GenDecl); ok {
+					for _, sp := range gd.Specs {
+						if vs, ok := sp.(*ast.ValueSpec); ok {
+							for _, nm := range vs.Names {
+								if nm.Name == x.Name {
+									switch t := vs.Type.(type) {
+									case *ast.ArrayType, *ast.MapType:
+										okDecl = true
+									case *ast.Ident:
+										okDecl = t.Name == "string" || strings.HasPrefix(t.Name, "int") || strings.HasPrefix(t.Name, "uint") || t.Name == "bool"
+									}
+								}
+							}
+						}
+					}
+				}
+			case *ast.AssignStmt:
+				if d.Tok == token.DEFINE && len(d.Rhs) == 1 {
+					for _, l := range d.Lhs {
+						if lid, ok := l.(*ast.Ident); ok && lid.Name == x.Name {
+							if call, ok := d.Rhs[0].(*ast.CallExpr); ok {
+								if f, ok := call.Fun.(*ast.Ident); ok && f.Name == "make" && len(call.Args) > 0 {
+									switch call.Args[0].(type) {
+									case *ast.ArrayType, *ast.MapType:
+										okDecl = true
+									}
+								}
+							}
+						}
+					}
+				}
+			}
+			return true
+		})
+		return okDecl
 	}
 	return false
 }
